@@ -1,7 +1,7 @@
 (* The recogniser of FragParser.v is sound and complete for the inductive grammar of Grammar.v:
-     sp_pattern_sound    : sp_pattern l = SOk tt r            -> Pattern u l            (any l, both modes)
-     sp_pattern_complete : Pattern u l -> in_fragment l = true -> sp_pattern l = SOk tt []
-   (in_fragment is only used to know that the single-character atoms are not `]` `{` `}`, which Annex B admits as
+     sp_pattern_sound    : sp_pattern u l = SOk tt r         -> Pattern u l            (any l, both modes)
+     sp_pattern_complete : Pattern u l -> chars_ok l = true -> sp_pattern u l = SOk tt []
+   (chars_ok is only used to know that the single-character atoms are not `]` `{` `}`, which Annex B admits as
    ExtendedPatternCharacter without u). *)
 From Coq Require Import List NArith Bool Lia PeanoNat.
 From V Require Import Regex.Grammar Regex.FragParser.
@@ -73,6 +73,42 @@ Proof.
   destruct (N.eqb_spec c g_rparen) as [->|_]; [|discriminate]. intros [= <- <-].
   split; [reflexivity|]. apply sdisj_sound in E. exact E.
 Qed.
+Lemma is_eq_or_bang_cases y : is_eq_or_bang y = true -> y = g_equals \/ y = g_bang.
+Proof. unfold is_eq_or_bang. intros H. apply orb_true_iff in H. destruct H as [H|H]; apply N.eqb_eq in H; auto. Qed.
+Lemma sp_assertion_sound l b r : sp_assertion sdisj l = SOk b r ->
+  (b = true /\ exists w, l = w ++ r /\ Assertion u w /\
+     (quantifiable u l = true -> u = false /\ QuantifiableAssertion u w)) \/ (b = false /\ r = l).
+Proof.
+  destruct l as [|c l']; cbn [sp_assertion]; [intros [= <- <-]; right; split; reflexivity|].
+  destruct (N.eqb_spec c g_caret) as [->|_].
+  { intros [= <- <-]. left. split; [reflexivity|]. exists [g_caret]. split; [reflexivity|]. split; [apply As_caret|].
+    destruct l' as [|c1 [|c2 l2]]; cbn; discriminate. }
+  destruct (N.eqb_spec c g_dollar) as [->|_].
+  { intros [= <- <-]. left. split; [reflexivity|]. exists [g_dollar]. split; [reflexivity|]. split; [apply As_dollar|].
+    destruct l' as [|c1 [|c2 l2]]; cbn; discriminate. }
+  destruct (N.eqb_spec c g_lparen) as [->|_]; [|intros [= <- <-]; right; split; reflexivity].
+  destruct l' as [|q r1]; [intros [= <- <-]; right; split; reflexivity|].
+  destruct (N.eqb_spec q g_question) as [->|_]; [|intros [= <- <-]; right; split; reflexivity].
+  destruct r1 as [|x r2]; [intros [= <- <-]; right; split; reflexivity|].
+  destruct (N.eqb_spec x g_less) as [->|Hx].
+  - destruct r2 as [|y r3]; [intros [= <- <-]; right; split; reflexivity|].
+    destruct (is_eq_or_bang y) eqn:Ey; [|intros [= <- <-]; right; split; reflexivity].
+    intros H. apply sp_group_body_sound in H. destruct H as [-> [d [-> Hd]]]. left. split; [reflexivity|].
+    apply is_eq_or_bang_cases in Ey. destruct Ey as [->| ->].
+    + exists (g_lparen :: g_question :: g_less :: g_equals :: d ++ [g_rparen]). split; [cbn [app]; rewrite <- app_assoc; reflexivity|].
+      split; [apply As_lookbehind; exact Hd|]. cbn. discriminate.
+    + exists (g_lparen :: g_question :: g_less :: g_bang :: d ++ [g_rparen]). split; [cbn [app]; rewrite <- app_assoc; reflexivity|].
+      split; [apply As_neg_lookbehind; exact Hd|]. cbn. discriminate.
+  - destruct (is_eq_or_bang x) eqn:Ex; [|intros [= <- <-]; right; split; reflexivity].
+    intros H. apply sp_group_body_sound in H. destruct H as [-> [d [-> Hd]]]. left. split; [reflexivity|].
+    apply is_eq_or_bang_cases in Ex. destruct Ex as [->| ->].
+    + exists (g_lparen :: g_question :: g_equals :: d ++ [g_rparen]). split; [cbn [app]; rewrite <- app_assoc; reflexivity|].
+      assert (HQ : QuantifiableAssertion u (g_lparen :: g_question :: g_equals :: d ++ [g_rparen])) by (apply QA_lookahead; exact Hd).
+      split; [apply As_lookahead; exact HQ|]. cbn. intros Hu. split; [destruct u; [discriminate|reflexivity]|exact HQ].
+    + exists (g_lparen :: g_question :: g_bang :: d ++ [g_rparen]). split; [cbn [app]; rewrite <- app_assoc; reflexivity|].
+      assert (HQ : QuantifiableAssertion u (g_lparen :: g_question :: g_bang :: d ++ [g_rparen])) by (apply QA_neg_lookahead; exact Hd).
+      split; [apply As_lookahead; exact HQ|]. cbn. intros Hu. split; [destruct u; [discriminate|reflexivity]|exact HQ].
+Qed.
 Lemma sp_atom_sound l b r : sp_atom sdisj l = SOk b r ->
   (b = true /\ exists w, l = w ++ r /\ Atom u w) \/ (b = false /\ r = l).
 Proof.
@@ -95,32 +131,41 @@ Proof.
   exists (g_lparen :: g_question :: g_colon :: d ++ [g_rparen]). split; [cbn [app]; rewrite <- app_assoc; reflexivity|].
   apply At_noncapturing; exact Hd.
 Qed.
-Lemma sp_term_sound l b r : sp_term sdisj l = SOk b r ->
+Lemma sp_term_sound l b r : sp_term u sdisj l = SOk b r ->
   (b = true /\ exists t, l = t ++ r /\ Term u t) \/ (b = false /\ r = l).
 Proof.
-  unfold sp_term. destruct (sp_atom sdisj l) as [[|] r0| |] eqn:E; try discriminate.
-  - intros [= <- <-]. left. split; [reflexivity|].
-    apply sp_atom_sound in E. destruct E as [[_ [w [-> Hw]]]|[E _]]; [|discriminate].
-    destruct (sp_quant r0) as [[|] r1] eqn:Eq; cbn [snd].
-    + apply sp_quant_sound in Eq. destruct Eq as [q [-> Hq]]. exists (w ++ q). split; [rewrite app_assoc; reflexivity|].
-      apply T_atom_quant; assumption.
-    + apply sp_quant_false in Eq. subst r1. exists w. split; [reflexivity|apply T_atom; exact Hw].
-  - intros [= <- <-]. right. split; [reflexivity|].
-    apply sp_atom_sound in E. destruct E as [[E _]|[_ E]]; [discriminate|exact E].
+  unfold sp_term. destruct (sp_assertion sdisj l) as [[|] r0| |] eqn:Ea; try discriminate.
+  - apply sp_assertion_sound in Ea. destruct Ea as [[_ [w [-> [Hw Hq]]]]|[Ea _]]; [|discriminate].
+    destruct (quantifiable u (w ++ r0)) eqn:Eq.
+    + intros [= <- <-]. left. split; [reflexivity|]. destruct (Hq eq_refl) as [Hu HQ].
+      destruct (sp_quant r0) as [[|] r1] eqn:Eq'; cbn [snd].
+      * apply sp_quant_sound in Eq'. destruct Eq' as [q [-> Hq']]. exists (w ++ q). split; [rewrite app_assoc; reflexivity|].
+        apply T_qassertion_quant; assumption.
+      * apply sp_quant_false in Eq'. subst r1. exists w. split; [reflexivity|apply T_assertion; exact Hw].
+    + intros [= <- <-]. left. split; [reflexivity|]. exists w. split; [reflexivity|apply T_assertion; exact Hw].
+  - destruct (sp_atom sdisj l) as [[|] r1| |] eqn:E; try discriminate.
+    + intros [= <- <-]. left. split; [reflexivity|].
+      apply sp_atom_sound in E. destruct E as [[_ [w [-> Hw]]]|[E _]]; [|discriminate].
+      destruct (sp_quant r1) as [[|] r2] eqn:Eq; cbn [snd].
+      * apply sp_quant_sound in Eq. destruct Eq as [q [-> Hq]]. exists (w ++ q). split; [rewrite app_assoc; reflexivity|].
+        apply T_atom_quant; assumption.
+      * apply sp_quant_false in Eq. subst r2. exists w. split; [reflexivity|apply T_atom; exact Hw].
+    + intros [= <- <-]. right. split; [reflexivity|].
+      apply sp_atom_sound in E. destruct E as [[E _]|[_ E]]; [discriminate|exact E].
 Qed.
-Lemma sp_alternative_sound g : forall l r, sp_alternative sdisj g l = SOk tt r ->
+Lemma sp_alternative_sound g : forall l r, sp_alternative u sdisj g l = SOk tt r ->
   exists a, l = a ++ r /\ Alternative u a.
 Proof.
   induction g as [|g IH]; intros l r; cbn [sp_alternative]; [discriminate|].
   destruct l as [|c l']; [intros [= <-]; exists []; split; [reflexivity|apply A_empty]|].
-  destruct (sp_term sdisj (c :: l')) as [[|] r0| |] eqn:E; try discriminate.
+  destruct (sp_term u sdisj (c :: l')) as [[|] r0| |] eqn:E; try discriminate.
   - intros H. apply IH in H. destruct H as [a [-> Ha]].
     apply sp_term_sound in E. destruct E as [[_ [t [-> Ht]]]|[E _]]; [|discriminate].
     exists (t ++ a). split; [rewrite app_assoc; reflexivity|apply Alternative_cons; assumption].
   - intros [= <-]. apply sp_term_sound in E. destruct E as [[E _]|[_ ->]]; [discriminate|].
     exists []. split; [reflexivity|apply A_empty].
 Qed.
-Lemma sp_bars_sound g : forall l r, sp_bars sdisj g l = SOk tt r ->
+Lemma sp_bars_sound g : forall l r, sp_bars u sdisj g l = SOk tt r ->
   forall a, Alternative u a -> exists d, a ++ l = d ++ r /\ Disjunction u d.
 Proof.
   induction g as [|g IH]; intros l r; cbn [sp_bars]; [discriminate|].
@@ -128,41 +173,42 @@ Proof.
   { intros [= <-] a Ha. exists a. split; [reflexivity|apply D_alt; exact Ha]. }
   destruct (N.eqb_spec c g_bar) as [->|_].
   2:{ intros [= <-] a Ha. exists a. split; [reflexivity|apply D_alt; exact Ha]. }
-  destruct (sp_alternative sdisj (S (length l')) l') as [[] r0| |] eqn:E; try discriminate.
+  destruct (sp_alternative u sdisj (S (length l')) l') as [[] r0| |] eqn:E; try discriminate.
   intros H a Ha. apply sp_alternative_sound in E. destruct E as [a' [-> Ha']].
   destruct (IH _ _ H a' Ha') as [d [Hd1 Hd2]]. exists (a ++ g_bar :: d). split.
   - rewrite Hd1. rewrite <- app_assoc. reflexivity.
   - apply D_bar; assumption.
 Qed.
-Lemma sp_disjunction_body_sound l r : sp_disjunction_body sdisj l = SOk tt r ->
+Lemma sp_disjunction_body_sound l r : sp_disjunction_body u sdisj l = SOk tt r ->
   exists d, l = d ++ r /\ Disjunction u d.
 Proof.
   unfold sp_disjunction_body.
-  destruct (sp_alternative sdisj (S (length l)) l) as [[] l1| |] eqn:E1; try discriminate.
-  destruct (sp_bars sdisj (S (length l1)) l1) as [[] l2| |] eqn:E2; try discriminate.
+  destruct (sp_alternative u sdisj (S (length l)) l) as [[] l1| |] eqn:E1; try discriminate.
+  destruct (sp_bars u sdisj (S (length l1)) l1) as [[] l2| |] eqn:E2; try discriminate.
   destruct (fst (sp_quant l2)); [discriminate|]. intros [= <-].
   apply sp_alternative_sound in E1. destruct E1 as [a [-> Ha]].
   exact (sp_bars_sound _ _ _ E2 a Ha).
 Qed.
 End Sound.
 
-Lemma sp_disjunction_sound u f : forall l r, sp_disjunction f l = SOk tt r -> exists d, l = d ++ r /\ Disjunction u d.
+Lemma sp_disjunction_sound u f : forall l r, sp_disjunction u f l = SOk tt r -> exists d, l = d ++ r /\ Disjunction u d.
 Proof.
   induction f as [|f IH]; intros l r; cbn [sp_disjunction]; [discriminate|].
   apply sp_disjunction_body_sound. exact IH.
 Qed.
 
-Theorem sp_pattern_sound u l a r : sp_pattern l = SOk a r -> Pattern u l.
+Theorem sp_pattern_sound u l a r : sp_pattern u l = SOk a r -> Pattern u l.
 Proof.
-  unfold sp_pattern. destruct (sp_disjunction (S (length l)) l) as [[] [|c r0]| |] eqn:E; try discriminate.
+  unfold sp_pattern. destruct (sp_disjunction u (S (length l)) l) as [[] [|c r0]| |] eqn:E; try discriminate.
   intros _. apply (sp_disjunction_sound u) in E. destruct E as [d [-> Hd]]. rewrite app_nil_r. exact Hd.
 Qed.
 
 (* ================= completeness ================= *)
-(* first characters *)
+(* first characters: no construct starts with a quantifier character; a Disjunction does not start with `?` *)
 Lemma grammar_heads u :
   (forall d, Disjunction u d -> noq d) /\ (forall a, Alternative u a -> noq a) /\
-  (forall t, Term u t -> noq t /\ t <> []) /\ (forall w, Atom u w -> noq w /\ w <> []).
+  (forall t, Term u t -> noq t /\ t <> []) /\ (forall w, Assertion u w -> noq w /\ w <> []) /\
+  (forall w, QuantifiableAssertion u w -> noq w /\ w <> []) /\ (forall w, Atom u w -> noq w /\ w <> []).
 Proof.
   apply grammar_mutind.
   - intros a _ IH. exact IH.
@@ -170,7 +216,16 @@ Proof.
   - exact I.
   - intros a t _ IHa _ [IHt Hne]. destruct a as [|c a']; [exact IHt|exact IHa].
   - intros a _ IH. exact IH.
+  - intros a q _ _ [IHa Hne] _. destruct a as [|c a']; [contradiction|]. split; [exact IHa|discriminate].
+  - intros a _ IH. exact IH.
   - intros a q _ [IHa Hne] _. destruct a as [|c a']; [contradiction|]. split; [exact IHa|discriminate].
+  - split; [cbn; reflexivity|discriminate].
+  - split; [cbn; reflexivity|discriminate].
+  - intros a _ IH. exact IH.
+  - intros d _ _. split; [cbn; reflexivity|discriminate].
+  - intros d _ _. split; [cbn; reflexivity|discriminate].
+  - intros d _ _. split; [cbn; reflexivity|discriminate].
+  - intros d _ _. split; [cbn; reflexivity|discriminate].
   - intros c Hc. split; [cbn; apply (pattern_char_not_quant u); exact Hc|discriminate].
   - split; [cbn; reflexivity|discriminate].
   - intros d _ _. split; [cbn; reflexivity|discriminate].
@@ -179,138 +234,179 @@ Qed.
 
 Lemma noq_app a r : a <> [] -> noq a -> noq (a ++ r).
 Proof. destruct a as [|c a']; [contradiction|]. intros _ H. exact H. Qed.
-Lemma noq_app' a r : noq a -> noq r -> noq (a ++ r).
-Proof. destruct a as [|c a']; [intros _ H; exact H|intros H _; exact H]. Qed.
 
 (* more fuel does not change a result *)
-Lemma sp_alternative_mono sdisj g : forall l res, sp_alternative sdisj g l = res -> res <> SFuel ->
-  forall g', (g <= g')%nat -> sp_alternative sdisj g' l = res.
+Lemma sp_alternative_mono u sdisj g : forall l res, sp_alternative u sdisj g l = res -> res <> SFuel ->
+  forall g', (g <= g')%nat -> sp_alternative u sdisj g' l = res.
 Proof.
   induction g as [|g IH]; intros l res H Hne g' Hle; [cbn in H; congruence|].
   destruct g' as [|g']; [lia|]. cbn [sp_alternative] in *.
   destruct l as [|c l']; [exact H|].
-  destruct (sp_term sdisj (c :: l')) as [[|] r0| |]; try exact H.
+  destruct (sp_term u sdisj (c :: l')) as [[|] r0| |]; try exact H.
   apply (IH _ _ H Hne). lia.
 Qed.
+
+Lemma chars_ok_app a b : chars_ok (a ++ b) = true -> chars_ok a = true /\ chars_ok b = true.
+Proof. unfold chars_ok. rewrite forallb_app. apply andb_true_iff. Qed.
+Lemma chars_ok_cons c l : chars_ok (c :: l) = true -> frag_char c = true /\ chars_ok l = true.
+Proof. unfold chars_ok. cbn [forallb]. apply andb_true_iff. Qed.
+Tactic Notation "chars_tail" hyp(H) integer(n) := do n (apply chars_ok_cons in H; destruct H as [_ H]); apply chars_ok_app in H; destruct H as [H _].
 
 Section Complete.
 Variable u : bool.
 
-Definition P_D (d : list N) : Prop := in_fragment d = true ->
+Definition P_D (d : list N) : Prop := chars_ok d = true ->
   forall r f, stop r -> (length (d ++ r) <= f)%nat ->
-  exists l1, sp_alternative (sp_disjunction f) (S (length (d ++ r))) (d ++ r) = SOk tt l1 /\
+  exists l1, sp_alternative u (sp_disjunction u f) (S (length (d ++ r))) (d ++ r) = SOk tt l1 /\
              (length l1 <= length (d ++ r))%nat /\
-             forall g, (length l1 < g)%nat -> sp_bars (sp_disjunction f) g l1 = SOk tt r.
-Definition P_A (a : list N) : Prop := in_fragment a = true ->
+             forall g, (length l1 < g)%nat -> sp_bars u (sp_disjunction u f) g l1 = SOk tt r.
+Definition P_A (a : list N) : Prop := chars_ok a = true ->
   forall r f g res, noq r -> (length (a ++ r) <= f)%nat ->
-  sp_alternative (sp_disjunction f) g r = res -> res <> SFuel ->
-  sp_alternative (sp_disjunction f) (g + length a) (a ++ r) = res.
-Definition P_T (t : list N) : Prop := in_fragment t = true ->
-  forall r f, noq r -> (length (t ++ r) <= f)%nat -> sp_term (sp_disjunction f) (t ++ r) = SOk true r.
-Definition P_At (w : list N) : Prop := in_fragment w = true ->
-  forall r f, (length (w ++ r) <= f)%nat -> sp_atom (sp_disjunction f) (w ++ r) = SOk true r.
+  sp_alternative u (sp_disjunction u f) g r = res -> res <> SFuel ->
+  sp_alternative u (sp_disjunction u f) (g + length a) (a ++ r) = res.
+Definition P_T (t : list N) : Prop := chars_ok t = true ->
+  forall r f, noq r -> (length (t ++ r) <= f)%nat -> sp_term u (sp_disjunction u f) (t ++ r) = SOk true r.
+Definition P_As (w : list N) : Prop := chars_ok w = true ->
+  forall r f, (length (w ++ r) <= f)%nat -> sp_assertion (sp_disjunction u f) (w ++ r) = SOk true r.
+(* a look-ahead: recognised as an assertion, and quantifiable exactly without u *)
+Definition P_QA (w : list N) : Prop := chars_ok w = true ->
+  forall r f, (length (w ++ r) <= f)%nat ->
+  sp_assertion (sp_disjunction u f) (w ++ r) = SOk true r /\ quantifiable u (w ++ r) = negb u.
+(* an atom: not an assertion, recognised as an atom *)
+Definition P_At (w : list N) : Prop := chars_ok w = true ->
+  forall r f, (length (w ++ r) <= f)%nat ->
+  sp_atom (sp_disjunction u f) (w ++ r) = SOk true r /\ sp_assertion (sp_disjunction u f) (w ++ r) = SOk false (w ++ r).
 
-(* what P_D gives for a whole sp_disjunction call *)
-Lemma P_D_disjunction d : P_D d -> in_fragment d = true -> forall r f, stop r -> (length (d ++ r) < f)%nat ->
-  sp_disjunction f (d ++ r) = SOk tt r.
+Lemma P_D_disjunction d : P_D d -> chars_ok d = true -> forall r f, stop r -> (length (d ++ r) < f)%nat ->
+  sp_disjunction u f (d ++ r) = SOk tt r.
 Proof.
   intros HP Hf r f Hs Hlen. destruct f as [|f]; [lia|]. cbn [sp_disjunction]. unfold sp_disjunction_body.
   destruct (HP Hf r f Hs ltac:(lia)) as [l1 [E1 [Hl1 Hb]]]. rewrite E1.
   rewrite (Hb (S (length l1)) ltac:(lia)). rewrite (sp_quant_noq r (stop_noq r Hs)). reflexivity.
 Qed.
-
-Lemma alt_stops_at f r : (exists c r', r = c :: r' /\ syntax_character c = true /\ c <> g_dot /\ c <> g_lparen) \/ r = [] ->
-  sp_alternative (sp_disjunction f) 1 r = SOk tt r.
+(* `(x` D `)` rest, entered after the prefix: the body of any group or look-around *)
+Lemma P_D_group_body d : P_D d -> chars_ok d = true -> forall r f, (S (length (d ++ g_rparen :: r)) <= f)%nat ->
+  sp_group_body (sp_disjunction u f) (d ++ g_rparen :: r) = SOk true r.
 Proof.
-  intros [[c [r' [-> [Hs [Hd Hl]]]]]| ->]; [|reflexivity].
-  cbn [sp_alternative]. unfold sp_term. cbn [sp_atom]. rewrite Hs. cbn [negb].
+  intros HP Hf r f Hlen. unfold sp_group_body. rewrite (P_D_disjunction d HP Hf (g_rparen :: r) f).
+  - rewrite N.eqb_refl. reflexivity.
+  - right. exists r. reflexivity.
+  - lia.
+Qed.
+
+Lemma alt_stops_at f r : (exists c r', r = c :: r' /\ syntax_character c = true /\ c <> g_dot /\ c <> g_lparen /\
+                                       c <> g_caret /\ c <> g_dollar) \/ r = [] ->
+  sp_alternative u (sp_disjunction u f) 1 r = SOk tt r.
+Proof.
+  intros [[c [r' [-> [Hs [Hd [Hl [Hc Hdo]]]]]]]| ->]; [|reflexivity].
+  cbn [sp_alternative]. unfold sp_term. cbn [sp_assertion sp_atom]. rewrite Hs. cbn [negb].
+  destruct (N.eqb_spec c g_caret); [contradiction|]. destruct (N.eqb_spec c g_dollar); [contradiction|].
   destruct (N.eqb_spec c g_dot); [contradiction|]. destruct (N.eqb_spec c g_lparen); [contradiction|]. reflexivity.
 Qed.
 
-Lemma in_fragment_app a b : in_fragment (a ++ b) = true -> in_fragment a = true /\ in_fragment b = true.
-Proof. unfold in_fragment. rewrite forallb_app. apply andb_true_iff. Qed.
-
-Lemma in_fragment_cons c l : in_fragment (c :: l) = true -> frag_char c = true /\ in_fragment l = true.
-Proof. unfold in_fragment. cbn [forallb]. apply andb_true_iff. Qed.
+Lemma app_comm_cons' (a b : list N) c : (a ++ [c]) ++ b = a ++ c :: b.
+Proof. rewrite <- app_assoc. reflexivity. Qed.
 
 Lemma completeness_mut :
   (forall d, Disjunction u d -> P_D d) /\ (forall a, Alternative u a -> P_A a) /\
-  (forall t, Term u t -> P_T t) /\ (forall w, Atom u w -> P_At w).
+  (forall t, Term u t -> P_T t) /\ (forall w, Assertion u w -> P_As w) /\
+  (forall w, QuantifiableAssertion u w -> P_QA w) /\ (forall w, Atom u w -> P_At w).
 Proof.
   apply grammar_mutind.
   - (* D_alt *) intros a Ha IHa Hf r f Hs Hlen. exists r. split; [|split].
     + pose proof (IHa Hf r f 1%nat (SOk tt r) (stop_noq r Hs) Hlen) as H.
-      assert (E : sp_alternative (sp_disjunction f) 1 r = SOk tt r).
+      assert (E : sp_alternative u (sp_disjunction u f) 1 r = SOk tt r).
       { apply alt_stops_at. destruct Hs as [->|[r' ->]]; [right; reflexivity|left].
         exists g_rparen, r'. repeat split; try reflexivity; discriminate. }
       specialize (H E ltac:(discriminate)).
-      apply (sp_alternative_mono _ _ _ _ H); [discriminate|]. rewrite app_length. lia.
+      apply (sp_alternative_mono _ _ _ _ _ H); [discriminate|]. rewrite app_length. lia.
     + rewrite app_length. lia.
     + intros g Hg. destruct g as [|g]; [lia|]. cbn [sp_bars].
       destruct Hs as [->|[r' ->]]; [reflexivity|]. reflexivity.
   - (* D_bar *) intros a d Ha IHa Hd IHd Hf r f Hs Hlen.
-    apply in_fragment_app in Hf. destruct Hf as [Hfa Hfd].
-    assert (Hfd' : in_fragment d = true) by (apply in_fragment_cons in Hfd; apply Hfd).
+    apply chars_ok_app in Hf. destruct Hf as [Hfa Hfd].
+    assert (Hfd' : chars_ok d = true) by (apply chars_ok_cons in Hfd; apply Hfd).
     rewrite <- app_assoc in *. cbn [app] in *.
     exists (g_bar :: d ++ r). split; [|split].
-    + assert (E : sp_alternative (sp_disjunction f) 1 (g_bar :: d ++ r) = SOk tt (g_bar :: d ++ r)).
+    + assert (E : sp_alternative u (sp_disjunction u f) 1 (g_bar :: d ++ r) = SOk tt (g_bar :: d ++ r)).
       { apply alt_stops_at. left. exists g_bar, (d ++ r). repeat split; try reflexivity; discriminate. }
       pose proof (IHa Hfa (g_bar :: d ++ r) f 1%nat _ ltac:(cbn; reflexivity) Hlen E ltac:(discriminate)) as H.
-      apply (sp_alternative_mono _ _ _ _ H); [discriminate|]. rewrite app_length. lia.
+      apply (sp_alternative_mono _ _ _ _ _ H); [discriminate|]. rewrite app_length. lia.
     + rewrite app_length. lia.
     + intros g Hg. destruct g as [|g]; [cbn in Hg; lia|]. cbn [sp_bars]. rewrite N.eqb_refl.
       assert (Hlen' : (length (d ++ r) <= f)%nat) by (rewrite app_length in Hlen; cbn [length] in Hlen; lia).
       destruct (IHd Hfd' r f Hs Hlen') as [l1 [E1 [Hl1 Hb]]]. rewrite E1. apply Hb. cbn [length] in Hg. lia.
   - (* A_empty *) intros _ r f g res _ _ H _. cbn [length app]. rewrite Nat.add_0_r. exact H.
   - (* A_term *) intros a t Ha IHa Ht IHt Hf r f g res Hq Hlen H Hne.
-    apply in_fragment_app in Hf. destruct Hf as [Hfa Hft].
+    apply chars_ok_app in Hf. destruct Hf as [Hfa Hft].
     destruct (proj1 (proj2 (proj2 (grammar_heads u))) t Ht) as [Hqt Hnt].
     rewrite <- app_assoc in *.
     assert (Hlen' : (length (t ++ r) <= f)%nat) by (rewrite app_length in Hlen; lia).
-    assert (E : sp_alternative (sp_disjunction f) (g + length t) (t ++ r) = res).
+    assert (E : sp_alternative u (sp_disjunction u f) (g + length t) (t ++ r) = res).
     { destruct t as [|c t']; [contradiction|]. cbn [length]. rewrite Nat.add_succ_r. cbn [sp_alternative app].
       change (c :: t' ++ r) with ((c :: t') ++ r). rewrite (IHt Hft r f Hq Hlen').
-      apply (sp_alternative_mono _ _ _ _ H Hne). lia. }
+      apply (sp_alternative_mono _ _ _ _ _ H Hne). lia. }
     pose proof (IHa Hfa (t ++ r) f (g + length t)%nat res (noq_app t r Hnt Hqt) Hlen E Hne) as H'.
     replace (g + length (a ++ t))%nat with (g + length t + length a)%nat by (rewrite app_length; lia). exact H'.
-  - (* T_atom *) intros a Ha IHa Hf r f Hq Hlen. unfold sp_term. rewrite (IHa Hf r f Hlen).
-    rewrite (sp_quant_noq r Hq). reflexivity.
-  - (* T_atom_quant *) intros a q Ha IHa Hq0 Hf r f Hq Hlen.
-    apply in_fragment_app in Hf. destruct Hf as [Hfa Hfq]. rewrite <- app_assoc in *.
-    unfold sp_term. rewrite (IHa Hfa (q ++ r) f Hlen).
+  - (* T_assertion *) intros a Ha IHa Hf r f Hq Hlen. unfold sp_term. rewrite (IHa Hf r f Hlen).
+    destruct (quantifiable u (a ++ r)); [rewrite (sp_quant_noq r Hq)|]; reflexivity.
+  - (* T_qassertion_quant *) intros a q Hu Ha IHa Hq0 Hf r f Hq Hlen.
+    apply chars_ok_app in Hf. destruct Hf as [Hfa Hfq]. rewrite <- app_assoc in *.
+    destruct (IHa Hfa (q ++ r) f Hlen) as [E1 E2]. unfold sp_term. rewrite E1, E2, Hu. cbn [negb].
     assert (E : snd (sp_quant (q ++ r)) = r).
     { destruct Hq0 as [p Hp|p Hp]; destruct Hp; cbn [app sp_quant is_quant_char];
         try rewrite N.eqb_refl; cbn [orb snd]; try reflexivity;
         (destruct r as [|c r']; [reflexivity|]); cbn [noq] in Hq; unfold is_quant_char in Hq;
         apply orb_false_iff in Hq; destruct Hq as [_ Hq]; rewrite Hq; reflexivity. }
     rewrite E. reflexivity.
-  - (* At_char *) intros c Hc Hf r f _. cbn [app sp_atom].
-    apply in_fragment_cons in Hf. destruct Hf as [Hf _].
-    rewrite (frag_pattern_char u c Hf Hc). reflexivity.
-  - (* At_dot *) intros _ r f _. reflexivity.
-  - (* At_group *) intros d Hd IHd Hf r f Hlen.
-    assert (Hfd : in_fragment d = true).
-    { apply in_fragment_cons in Hf. destruct Hf as [_ Hf]. apply in_fragment_app in Hf. apply Hf. }
+  - (* T_atom *) intros a Ha IHa Hf r f Hq Hlen. unfold sp_term. destruct (IHa Hf r f Hlen) as [E1 E2].
+    rewrite E2, E1. rewrite (sp_quant_noq r Hq). reflexivity.
+  - (* T_atom_quant *) intros a q Ha IHa Hq0 Hf r f Hq Hlen.
+    apply chars_ok_app in Hf. destruct Hf as [Hfa Hfq]. rewrite <- app_assoc in *.
+    unfold sp_term. destruct (IHa Hfa (q ++ r) f Hlen) as [E1 E2]. rewrite E2, E1.
+    assert (E : snd (sp_quant (q ++ r)) = r).
+    { destruct Hq0 as [p Hp|p Hp]; destruct Hp; cbn [app sp_quant is_quant_char];
+        try rewrite N.eqb_refl; cbn [orb snd]; try reflexivity;
+        (destruct r as [|c r']; [reflexivity|]); cbn [noq] in Hq; unfold is_quant_char in Hq;
+        apply orb_false_iff in Hq; destruct Hq as [_ Hq]; rewrite Hq; reflexivity. }
+    rewrite E. reflexivity.
+  - (* As_caret *) intros _ r f _. reflexivity.
+  - (* As_dollar *) intros _ r f _. reflexivity.
+  - (* As_lookahead *) intros a Ha IHa Hf r f Hlen. apply (IHa Hf r f Hlen).
+  - (* As_lookbehind *) intros d Hd IHd Hf r f Hlen. chars_tail Hf 4.
+    cbn [app sp_assertion]. rewrite app_comm_cons'. cbn [N.eqb Pos.eqb is_eq_or_bang orb].
+    apply (P_D_group_body d IHd Hf). cbn [length app] in Hlen. rewrite app_comm_cons' in Hlen. cbn [length] in *. lia.
+  - (* As_neg_lookbehind *) intros d Hd IHd Hf r f Hlen. chars_tail Hf 4.
+    cbn [app sp_assertion]. rewrite app_comm_cons'. cbn [N.eqb Pos.eqb is_eq_or_bang orb].
+    apply (P_D_group_body d IHd Hf). cbn [length app] in Hlen. rewrite app_comm_cons' in Hlen. cbn [length] in *. lia.
+  - (* QA_lookahead *) intros d Hd IHd Hf r f Hlen. chars_tail Hf 3. split.
+    + cbn [app sp_assertion]. rewrite app_comm_cons'. cbn [N.eqb Pos.eqb is_eq_or_bang orb].
+      apply (P_D_group_body d IHd Hf). cbn [length app] in Hlen. rewrite app_comm_cons' in Hlen. cbn [length] in *. lia.
+    + cbn. reflexivity.
+  - (* QA_neg_lookahead *) intros d Hd IHd Hf r f Hlen. chars_tail Hf 3. split.
+    + cbn [app sp_assertion]. rewrite app_comm_cons'. cbn [N.eqb Pos.eqb is_eq_or_bang orb].
+      apply (P_D_group_body d IHd Hf). cbn [length app] in Hlen. rewrite app_comm_cons' in Hlen. cbn [length] in *. lia.
+    + cbn. reflexivity.
+  - (* At_char *) intros c Hc Hf r f _. cbn [app sp_atom sp_assertion].
+    apply chars_ok_cons in Hf. destruct Hf as [Hf _].
+    pose proof (frag_pattern_char u c Hf Hc) as Hs. rewrite Hs. cbn [negb]. split; [reflexivity|].
+    destruct (N.eqb_spec c g_caret) as [->|_]; [discriminate|]. destruct (N.eqb_spec c g_dollar) as [->|_]; [discriminate|].
+    destruct (N.eqb_spec c g_lparen) as [->|_]; [discriminate|]. reflexivity.
+  - (* At_dot *) intros _ r f _. split; reflexivity.
+  - (* At_group *) intros d Hd IHd Hf r f Hlen. chars_tail Hf 1.
     pose proof (proj1 (grammar_heads u) d Hd) as Hqd.
-    cbn [app sp_atom]. rewrite <- app_assoc. cbn [app].
-    assert (Hbody : sp_group_body (sp_disjunction f) (d ++ g_rparen :: r) = SOk true r).
-    { unfold sp_group_body. rewrite (P_D_disjunction d IHd Hfd (g_rparen :: r) f).
-      - rewrite N.eqb_refl. reflexivity.
-      - right. exists r. reflexivity.
-      - cbn [length app] in Hlen. rewrite <- app_assoc in Hlen. cbn [app] in Hlen. lia. }
-    destruct d as [|q d']; [exact Hbody|]. cbn [app]. cbn [noq] in Hqd.
-    unfold is_quant_char in Hqd. apply orb_false_iff in Hqd. destruct Hqd as [_ Hqd]. rewrite Hqd. exact Hbody.
-  - (* At_noncapturing *) intros d Hd IHd Hf r f Hlen.
-    assert (Hfd : in_fragment d = true).
-    { do 3 (apply in_fragment_cons in Hf; destruct Hf as [_ Hf]). apply in_fragment_app in Hf. apply Hf. }
-    cbn [app sp_atom]. rewrite <- app_assoc. cbn [app].
-    unfold sp_group_body. rewrite (P_D_disjunction d IHd Hfd (g_rparen :: r) f).
-    + rewrite N.eqb_refl. reflexivity.
-    + right. exists r. reflexivity.
-    + cbn [length app] in Hlen. rewrite <- app_assoc in Hlen. cbn [app] in Hlen. lia.
+    cbn [app sp_atom sp_assertion]. rewrite app_comm_cons'. cbn [N.eqb Pos.eqb negb syntax_character existsb orb].
+    assert (Hbody : sp_group_body (sp_disjunction u f) (d ++ g_rparen :: r) = SOk true r).
+    { apply (P_D_group_body d IHd Hf). cbn [length app] in Hlen. rewrite app_comm_cons' in Hlen. cbn [length] in *. lia. }
+    destruct d as [|q d']; [split; [exact Hbody|reflexivity]|]. cbn [app]. cbn [noq] in Hqd.
+    unfold is_quant_char in Hqd. apply orb_false_iff in Hqd. destruct Hqd as [_ Hqd]. rewrite Hqd. split; [exact Hbody|reflexivity].
+  - (* At_noncapturing *) intros d Hd IHd Hf r f Hlen. chars_tail Hf 3.
+    cbn [app sp_atom sp_assertion]. rewrite app_comm_cons'. cbn [N.eqb Pos.eqb negb syntax_character existsb orb is_eq_or_bang].
+    split; [|reflexivity].
+    apply (P_D_group_body d IHd Hf). cbn [length app] in Hlen. rewrite app_comm_cons' in Hlen. cbn [length] in *. lia.
 Qed.
 
-Theorem sp_pattern_complete l : Pattern u l -> in_fragment l = true -> sp_pattern l = SOk tt [].
+Theorem sp_pattern_complete l : Pattern u l -> chars_ok l = true -> sp_pattern u l = SOk tt [].
 Proof.
   intros Hp Hf. unfold sp_pattern.
   pose proof (P_D_disjunction l (proj1 completeness_mut l Hp) Hf [] (S (length l)) (or_introl eq_refl)) as H.
@@ -318,10 +414,10 @@ Proof.
 Qed.
 End Complete.
 
-Theorem recognises_iff_Pattern u l : in_fragment l = true -> (recognises l = true <-> Pattern u l).
+Theorem recognises_iff_Pattern u l : chars_ok l = true -> (recognises u l = true <-> Pattern u l).
 Proof.
   intros Hf. unfold recognises. split.
-  - destruct (sp_pattern l) as [a r| |] eqn:E; try discriminate. intros _. exact (sp_pattern_sound u l a r E).
+  - destruct (sp_pattern u l) as [a r| |] eqn:E; try discriminate. intros _. exact (sp_pattern_sound u l a r E).
   - intros Hp. rewrite (sp_pattern_complete u l Hp Hf). reflexivity.
 Qed.
 
